@@ -15,9 +15,26 @@ counting and after the chunk files exist (an unknown `method`, `method=
 taken over (an array with one vector dimension too many / a bare ndarray for the
 wh flavours); verbose=True for a quarter of the calls: directory listings of
 both temp roots before/after and sha256 of the
-input file are compared with the model's always-clean prediction. partial: that
-the real bodies write only below their TemporaryDirectory is exactly what this
-run observes; rmtree/Pool.terminate behave as documented.
+input file are compared with the model's always-clean prediction.
+THE EFFECTS MODEL IS EVALUATED: every call runs with `watch` (harness/fswatch.py:
+a listing — paths + sha256 — of the call's whole private root before and after,
+and an inotify record of the entries created / removed meanwhile, also by the
+call's worker processes).  The driver op `effects_call` gets the listing before
+the call, the call shape (events as path / generator; temporary_directory given
+or defaulted), the exit, and the temporary directories the call was OBSERVED to
+create below its temp root with the entries observed inside them (the model's
+bodies are abstract: `opsBody` takes any op list), runs `bracketC` / `opsBody` /
+`generatorCallC` (PyndlModel/Effects.lean; C17 fs_clean_contents,
+inputs_unchanged, path_call_clean) and returns the final listing, which must
+equal the real listing after the call, path for path and hash for hash (input
+file included).  What the model cannot express is itself reported: an entry
+observed OUTSIDE a temporary directory directly below the temp root (the
+`OnlyBelowC` assumption, now observed during the call and not only at its end),
+or more temporary directories than the call shape has brackets.
+partial: that the real bodies write only below their TemporaryDirectory is
+exactly what this run observes (the inotify record is a lower bound: an entry
+that lives for less than the time it takes to install the watch on a new
+directory is missed); rmtree/Pool.terminate behave as documented.
 """
 import run_C05
 from common import rng
@@ -33,6 +50,50 @@ def fault_kind(t):
     if kind == 'bad_weights':
         kind += ':' + t['fault']['shape']
     return kind
+
+
+def effects_request(t, res):
+    """(request for driver op effects_call, entries observed outside every temporary directory) for one watched call"""
+    root = 'giventmp' if t.get('given_tmp') else 'systmp'
+    dirs, by_name, outside = [], {}, []
+    for kind, comps, is_dir in res.get('observed', []):
+        if comps[0] == root and len(comps) == 2 and (is_dir or comps[1] in by_name):
+            if kind == 'create' and comps[1] not in by_name:
+                by_name[comps[1]] = {'name': comps[1], 'ops': []}
+                dirs.append(by_name[comps[1]])
+            elif kind == 'remove' and comps[1] in by_name:
+                # the bracket's own rmtree: what it removed just before belongs to it, not to the body
+                ops = by_name[comps[1]]['ops']
+                while ops and ops[-1][0] == 'remove':
+                    ops.pop()
+        elif comps[0] == root and len(comps) >= 3 and comps[1] in by_name:
+            by_name[comps[1]]['ops'].append(['write' if kind == 'create' else 'remove', '/'.join(comps[2:])])
+        else:
+            outside.append([kind, '/'.join(comps)])
+    got = res.get('outcome', res.get('err', '?'))
+    req = {'op': 'effects_call', 'initial': res.get('listing_before', []), 'tmp_root': [root],
+           'shape': 'generator' if t.get('form') == 'generator' and t['learner'].startswith('ndl') else 'path',
+           'dirs': dirs, 'exit': 'returned' if got == 'Returned' else 'raised'}
+    if req['shape'] == 'generator':
+        req['spool_exit'] = 'raised' if len(dirs) == 1 and req['exit'] == 'raised' else 'returned'
+    return req, outside
+
+
+def judge_effects(t, res, model, outside):
+    """the watched call against the Effects model: None, or what differs"""
+    if 'listing_after' not in res:
+        return None
+    if outside:
+        return 'entries created / removed OUTSIDE the call\'s temporary directories while it ran: %r' % (outside[:6],)
+    if 'unmodelled' in model:
+        return 'the call does not have the shape of the model: %s' % model['unmodelled']
+    if model['final'] != res['listing_after']:
+        after = {tuple(p): h for p, h in res['listing_after']}
+        final = {tuple(p): h for p, h in model['final']}
+        diff = sorted(('/'.join(p), final.get(p, 'absent'), after.get(p, 'absent')) for p in set(after) | set(final)
+                      if after.get(p, 'absent') != final.get(p, 'absent'))
+        return 'listing after the call differs from the Effects model (path, model, real): %r' % (diff[:6],)
+    return None
 
 
 def judge(t, res):
@@ -118,9 +179,20 @@ def run(rep, pool, driver, tier):
     for t in tasks:
         if rv.random() < 0.25:
             t['verbose'] = True
+        t['watch'] = True
     impls = pool.map(tasks)
+    ereqs = [effects_request(t, res) for t, res in zip(tasks, impls)]
+    emodels = driver.ask([q for q, _ in ereqs])
     n_shrunk = 0
-    for t, res in zip(tasks, impls):
+
+    def judge2(c, x):
+        p = judge(c, x)
+        if p is None and 'listing_after' in x:
+            q, out = effects_request(c, x)
+            p = judge_effects(c, x, driver.ask([q])[0], out)
+        return p
+
+    for t, res, (ereq, outside), emodel in zip(tasks, impls, ereqs, emodels):
         got = res.get('outcome', res.get('err', '?'))
         kind = fault_kind(t)
         rep.count('verbose:%s' % bool(t.get('verbose')))
@@ -132,20 +204,27 @@ def run(rep, pool, driver, tier):
         rep.count('exit:' + ('returned' if got == 'Returned' else 'raised' if got.startswith('Raised') else got))
         rep.count('learner:' + t['learner'])
         lo = res.get('leftovers')
-        prob = judge(t, res)
+        if 'listing_after' in res:
+            rep.count('effects:shape=%s/temp_dirs=%d' % (ereq['shape'], len(ereq['dirs'])))
+            rep.count('effects:inotify_record:%s' % ('yes' if res.get('watched', True) else 'no (listings only)'))
+            rep.count('effects:entries_observed_in_temp_dirs', sum(len(d['ops']) for d in ereq['dirs']))
+            rep.count('effects:listing_entries_compared', len(res['listing_after']))
+        prob = judge(t, res) or judge_effects(t, res, emodel, outside)
         if prob:
             steps = 0
             if n_shrunk < 3:
                 # the first three violations are shrunk (events dropped, configuration simplified)
                 n_shrunk += 1
-                t, steps = run_C05.shrink(pool, t, 'storage' if kind == 'storage' else kind, lambda c, x: judge(c, x) is not None,
+                t, steps = run_C05.shrink(pool, t, 'storage' if kind == 'storage' else kind, lambda c, x: judge2(c, x) is not None,
                                           rounds=3 if got in ('Timeout', 'WorkerDied') else 8)   # a hanging variant costs 15 s
                 if steps:
                     res = pool.map([t])[0]
-                    prob = judge(t, res) or prob
-            rep.violation({'what': prob, 'input': t, 'observed': {k: res.get(k) for k in ('outcome', 'cls', 'msg', 'leftovers', 'file_unchanged')},
-                           'expected': 'no new entry in either temp root; input file unchanged',
-                           'theorem_or_stream': 'C17 fs_clean: %s, events as %s, fault %s' % (t['learner'], t['form'], kind),
+                    prob = judge2(t, res) or prob
+            rep.violation({'what': prob, 'input': t, 'observed': {k: res.get(k) for k in ('outcome', 'cls', 'msg', 'leftovers', 'file_unchanged',
+                                                                                          'observed', 'listing_after')},
+                           'expected': 'no new entry in either temp root; input file unchanged; the final listing of the Effects model '
+                                       '(driver op effects_call) = the listing before the call',
+                           'theorem_or_stream': 'C17 fs_clean / fs_clean_contents: %s, events as %s, fault %s' % (t['learner'], t['form'], kind),
                            'python': run_C05.snippet(t), 'shrink_steps': steps})
         else:
             rep.sample({'learner': t['learner'], 'form': t['form'], 'given_tmp': t['given_tmp'], 'fault': t['fault'], 'exit': got,
